@@ -22,6 +22,7 @@ def gen(rng):
     g = docs.Gen(rng, hostile=0.1, rich=0.6)
     vs = rng.choice(['1.0', '1.1', '1.3'])
     a = g.lexicon('a', '1', vs, requires=[{'id': 'q', 'version': '9', 'url': 'http://q'}] if vs != '1.0' and rng.random() < 0.4 else None)
+    a['language'] = rng.choice(['en', 'zh-Hant', 'pt-BR', 'sr-Latn', 'de'])      # language tags are kept verbatim
     lexs = [a]
     clash = False
     if rng.random() < 0.4:
